@@ -89,6 +89,9 @@ def compile_pred(text, pred, user_flags=None, import_root=None, rules=None):  # 
     return Outcome('internal', error=e, message='SystemExit', exc_type='SystemExit')
 
 
+MAX_ROWS = 20000
+
+
 def run_sqlite(text, pred, user_flags=None, import_root=None, database=':memory:', rules=None):
   """The `logica.py <file> run <pred>` path on SQLite. Outcome(ok, header, rows, sql...)."""
   c = compile_pred(text, pred, user_flags, import_root, rules=rules)
@@ -96,15 +99,27 @@ def run_sqlite(text, pred, user_flags=None, import_root=None, database=':memory:
     return c
   try:
     con = sqlite3_logica.SqliteConnect(database)
+    # capacity guard of the harness: a generated program whose plan explodes is abandoned, not judged
+    budget = [int(os.environ.get('VERIF_SQLITE_STEPS', '400'))]
+
+    def tick():
+      budget[0] -= 1
+      return 1 if budget[0] < 0 else 0
+    con.set_progress_handler(tick, 1000000)
     cur = con.cursor()
     for s in [c.preamble] + c.defines:
       cur.executescript(s)
     cur.execute(c.main)
-    rows = cur.fetchall()
+    rows = cur.fetchmany(MAX_ROWS + 1)
+    if len(rows) > MAX_ROWS:
+      con.close()
+      return Outcome('too_big', message='more than %d rows' % MAX_ROWS, sql=c.sql)
     header = [d[0] for d in cur.description]
     con.commit()
     con.close()
   except Exception as e:  # noqa: BLE001
+    if 'interrupted' in str(e):
+      return Outcome('too_big', message='SQLite step budget of the harness exhausted', sql=c.sql)
     return Outcome('sql_error', error=e, message='%s: %s' % (type(e).__name__, e), sql=c.sql)
   return Outcome('ok', header=header, rows=[list(r) for r in rows], sql=c.sql, defines=c.defines,
                  main=c.main, preamble=c.preamble, program=c.program)
